@@ -89,6 +89,14 @@ fn cell(ctx: &mut Ctx, nv: usize, d: usize, rng: &mut ChaCha20Rng) {
     }
     ctx.count("monomial-variable-pairs", pairs);
     ctx.check(bad.is_empty(), "trapdoor-consistency", "setup", desc.clone(), || json!({"inconsistent": bad}));
+    // one independent trapdoor per variable: the per-variable G2 elements and the published G1 elements of distinct
+    // monomials are pairwise different (equal trapdoors would identify polynomials that differ by a variable exchange)
+    {
+        let g2: Vec<Vec<u8>> = w.pp.beta_h.iter().map(crate::ju::ser).collect();
+        let g1: Vec<Vec<u8>> = w.pp.powers_of_g.values().map(crate::ju::ser).collect();
+        let distinct = |v: &Vec<Vec<u8>>| v.iter().collect::<BTreeSet<_>>().len() == v.len();
+        ctx.check(distinct(&g2) && distinct(&g1), "trapdoors-independent", "setup", desc.clone(), || json!({"distinct_g2": distinct(&g2), "distinct_g1": distinct(&g1)}));
+    }
     // ---- trim keeps exactly the monomials up to the supported degree
     let tgot: BTreeSet<Vec<usize>> = w.ck.powers_of_g.keys().map(|t| exps(t, nv)).collect();
     let twant: BTreeSet<Vec<usize>> = want.iter().filter(|m| m.iter().sum::<usize>() <= sup).cloned().collect();
